@@ -3,6 +3,9 @@ import Pcore.Proofs.Caches
 import Pcore.Proofs.SliceHeapAlias
 import Pcore.Generated.SliceIdioms
 import Pcore.Generated.CacheFacts
+import Pcore.Proofs.ImmutResolve
+import Pcore.Proofs.ImmutWrites
+import Pcore.Generated.FieldWrites
 /-!
 # C08 — Values are immutable: no operation disturbs a value obtained earlier
 
@@ -59,6 +62,30 @@ Full statement / proved / missing
                       them) is the obligation that commit 01dc3ec made true; `C08_stale_cache_breaks` is its converse
                       (facts without the `reducedType` reset: a mutable hash whose type was asked for before a `Put`
                       answers from the old content afterwards).
+* RESOLVING (`Model/ImmutResolve.lean`: `types.ResolveDeferred`, `Deferred.Resolve`, `DeferredType.Resolve` over lists and maps
+                      that hold nested Deferred values; pure layer `resolve`, implementation layer `resolveW` in which every
+                      field assignment the regenerated table `Generated.fieldWrites` attributes to the resolving methods is
+                      executed on the object):
+  `C08_field_writes_safe` — every assignment to a field of a struct behind a px.Value implementation, anywhere in package
+                      `types` (family fieldwrites, regenerated on every run), is one of the REVIEWED rows (construction,
+                      guarded lazy caches, the one mutator, in-place completion of parsed types); by `decide`.  THE
+                      obligation seeded change C08-s11 breaks (`e.arguments = …` in `(*deferred).Resolve`).
+  `C08_resolve_frame` — FULL statement for one resolution, proved: for every table with `FieldWritesSafe`, every scope and
+                      every value whose memos are sound (true of every freshly built value), after `resolveW` the value
+                      has the observable content it had (`erase`, hence the same walk / text), its memos are still sound,
+                      and the answer is the pure `resolve sc v`.
+  `C08_resolve_history_free` — FULL statement for resolutions IN SEQUENCE under arbitrary scopes: the value is observably
+                      unchanged after all of them and the n-th answer is what `resolve` answers for the ORIGINAL value
+                      under the n-th scope alone — resolution is a function of (value, scope), whatever was resolved before.
+  `C08_resolve_impl`  — instantiated on the regenerated table.
+  `C08_resolve_memo_breaks` — the constructive converse (seeded change C08-s11): for EVERY write policy in which
+                      `(*deferred).Resolve` assigns `e.arguments`, the list `['x', Deferred('$v', [Deferred('$k')])]` reads
+                      `['x', Deferred('$v', ['a'])]` after one resolution, and a second resolution in a scope where
+                      `$k = 'b'` answers `['x', 1]` instead of `['x', 2]`.
+                      Not modelled: a DeferredType WITH parameters (`resolveValue`; harness predicate only), the same
+                      Deferred object held at two places of one value (the implementation-layer model is a tree: exact for
+                      the code as it is — by the frame theorem nothing is written, so sharing cannot be observed — and
+                      only an approximation of a memoising mutant), functions other than the harness's `verif_list`.
 * missing / trusted — (1) the extractor's classification of Go expressions into idioms (DESIGN §5.4) — cross-checked on
                       every run by the storage-shape correspondence (which values share a backing array, read off the
                       real slice headers, against the model's headers); (2) nested containers inside a cell are pure
@@ -376,3 +403,78 @@ example : ¬ IdiomsSafe (("Array.Add/r0", .unknown "pool.Get()") :: sliceIdioms)
 example : ¬ IdiomsSafe (("Array.Reject/r0", .wrapsArgument) :: sliceIdioms) := by decide
 
 end Pcore.Heap
+
+/-! ### resolving: `types.ResolveDeferred` / `Deferred.Resolve` / `DeferredType.Resolve` -/
+namespace Pcore.Immut
+open Pcore.Generated
+
+/-- obligation over the regenerated table of field writes: each is a reviewed one -/
+theorem C08_field_writes_safe : FieldWritesSafe fieldWrites := by decide
+
+/-- ONE resolution leaves the value as it was — same observable content, hence the same walk — keeps its memos sound,
+    and answers what the pure function answers -/
+theorem C08_resolve_frame (tbl : List FieldWrite) (ht : FieldWritesSafe tbl) (sc : List RV) (v : RV)
+    (hm : v.memoOK = true) :
+    (resolveW (Writes.ofTable tbl) sc v).1.erase = v.erase ∧
+    (resolveW (Writes.ofTable tbl) sc v).1.render = v.render ∧
+    (resolveW (Writes.ofTable tbl) sc v).1.memoOK = true ∧
+    (resolveW (Writes.ofTable tbl) sc v).2 = resolve sc v := by
+  obtain ⟨h1, h2, h3⟩ := resolveW_frame (Writes.ofTable tbl) (safe_dfrArgs ht) sc v hm
+  refine ⟨h1, ?_, h2, h3⟩
+  rw [← render_erase, h1, render_erase]
+
+/-- resolutions IN SEQUENCE under arbitrary scopes: the value is observably unchanged after all of them, and the n-th
+    answer is what the ORIGINAL value resolves to under the n-th scope alone (a function of (value, scope)) -/
+theorem C08_resolve_history_free (tbl : List FieldWrite) (ht : FieldWritesSafe tbl) (v : RV) (hm : v.memoOK = true)
+    (scs : List (List RV)) :
+    (resolveSeq (Writes.ofTable tbl) v scs).1.render = v.render ∧
+    (resolveSeq (Writes.ofTable tbl) v scs).2.map answerText = scs.map (fun sc => answerText (resolve sc v)) := by
+  obtain ⟨h1, _, h3⟩ := resolveSeq_frame (Writes.ofTable tbl) (safe_dfrArgs ht) scs v hm
+  constructor
+  · rw [← render_erase, h1, render_erase]
+  · have := congrArg (List.map answerText) h3
+    simpa [List.map_map, Function.comp_def, answerText_eraseR] using this
+
+/-- instantiated on the code as it is now -/
+theorem C08_resolve_impl (v : RV) (hm : v.memoOK = true) (scs : List (List RV)) :
+    (resolveSeq (Writes.ofTable fieldWrites) v scs).1.render = v.render ∧
+    (resolveSeq (Writes.ofTable fieldWrites) v scs).2.map answerText = scs.map (fun sc => answerText (resolve sc v)) :=
+  C08_resolve_history_free fieldWrites C08_field_writes_safe v hm scs
+
+/-- `['x', Deferred('$v', [Deferred('$k')])]` -/
+def seedList : RV := .arr [.str "x", .dfr "$v" [.dfr "$k" []]]
+/-- `{'v' => {'a' => 1, 'b' => 2}, 'k' => k}` -/
+def seedScope (k : String) : List RV :=
+  [.ent (.str "v") (.hsh [.ent (.str "a") (.int 1), .ent (.str "b") (.int 2)]), .ent (.str "k") (.str k)]
+
+/-- non-vacuity: the hypotheses of the two theorems above hold of the regenerated table and of a value with a nested
+    Deferred whose two scopes give different answers -/
+example : FieldWritesSafe fieldWrites ∧ seedList.memoOK = true ∧
+    (resolve (seedScope "a") seedList).toOption.map RV.render = some "(a (s x78) (i 1))" ∧
+    (resolve (seedScope "b") seedList).toOption.map RV.render = some "(a (s x78) (i 2))" := by
+  refine ⟨C08_field_writes_safe, by decide, by decide +kernel, by decide +kernel⟩
+
+/-- the constructive converse (seeded change C08-s11): when `(*deferred).Resolve` stores the resolved arguments into the
+    Deferred, (1) the first answer is still right, (2) the LIST that was resolved holds `Deferred('$v', ['a'])`
+    afterwards, (3) a second resolution in a scope with `$k = 'b'` answers the first scope's `['x', 1]`, where (4) the
+    value as it was answers `['x', 2]` -/
+theorem C08_resolve_memo_breaks (W : Writes) (hW : W.dfrArgs = true) :
+    (resolveW W (seedScope "a") seedList).2 = .ok (.arr [.str "x", .int 1]) ∧
+    (resolveW W (seedScope "a") seedList).1 = .arr [.str "x", .dfr "$v" [.str "a"]] ∧
+    (resolveSeq W seedList [seedScope "a", seedScope "b"]).2 = [.ok (.arr [.str "x", .int 1]), .ok (.arr [.str "x", .int 1])] ∧
+    resolve (seedScope "b") seedList = .ok (.arr [.str "x", .int 2]) := by
+  obtain ⟨a, b⟩ := W
+  simp only at hW
+  subst hW
+  rcases b with _ | _ | _ <;> exact ⟨rfl, rfl, rfl, rfl⟩
+
+/-- the table of seeded change C08-s11 -/
+def tblMemo : List FieldWrite := ⟨"deferred", "arguments", "deferred.Resolve", .write⟩ :: fieldWrites
+example : ¬ FieldWritesSafe tblMemo := by decide
+example : (Writes.ofTable tblMemo).dfrArgs = true := by decide
+/-- other writes the white list refuses: a hash entry's value, a cache assigned outside its guard, a Sensitive's value -/
+example : ¬ FieldWritesSafe (⟨"HashEntry", "value", "HashEntry.Value", .write⟩ :: fieldWrites) := by decide
+example : ¬ FieldWritesSafe (⟨"Hash", "index", "Hash.Merge", .write⟩ :: fieldWrites) := by decide
+example : ¬ FieldWritesSafe (⟨"Sensitive", "value", "Sensitive.Unwrap", .reset⟩ :: fieldWrites) := by decide
+
+end Pcore.Immut
